@@ -37,9 +37,11 @@ ASSUMPTIONS = [
     "is 'no categories': feaLib's inference from mark lookups is then admissible) or the user's "
     "features define GlyphClassDef (then the user's classes are demanded)",
     "cursive: a suffix group is expected in GPOS only if both entry<S> and exit<S> occur among the "
-    "exported glyphs; a glyph whose direction is undetermined (no script-specific code point "
-    "reaches it through the generated GSUB rules) or mixed (LTR and RTL provenance) may sit in "
-    "either lookup; every unencoded glyph is produced by at most one GSUB rule",
+    "exported glyphs; direction by the script PROPERTY of the code points that reach a glyph "
+    "through the generated GSUB rules: only LTR provenance -> flag cleared; only RTL provenance "
+    "or none at all (script-neutral) -> flag set ('cleared exactly for left-to-right scripts'); "
+    "mixed LTR and RTL provenance may sit in either lookup; every unencoded glyph is produced "
+    "by at most one GSUB rule",
     "carets: compiled values must be non-decreasing, equal as a set to the rounded anchor "
     "coordinates, a value repeated at most as often as anchors round to it",
     "user GDEF blocks that define LigatureCaret statements: caret clause not judged (counted)",
@@ -244,6 +246,23 @@ def gen(rng, idx, tier):
             if rng.random() < 0.15:
                 # an unpaired extra group next to paired ones
                 put(rng.choice(cands), rng.choice(["entry", "exit"]), ".solo")
+    # ---- a script-neutral glyph (by script PROPERTY) whose alternate carries cursive anchors:
+    # U+0640 TATWEEL belongs to right-to-left scripts only by its script extensions
+    kashida = None
+    if mode != "none" and rng.random() < 0.2 and "kashida-ar" not in by_name:
+        for n_, u_ in (("kashida-ar", [0x640]), ("kashida-ar.long", [])):
+            g_ = S._spec(rng, n_, u_)
+            glyphs.append(g_)
+            by_name[n_] = g_
+            names.append(n_)
+            exported.append(n_) if isinstance(exported, list) else exported.add(n_)
+            desc[n_] = S.describe(n_, u_, "letter" if u_ else "alternate",
+                                  None if u_ else ["kashida-ar"])
+            put(n_, "entry", "")
+            put(n_, "exit", "")
+        rules.append({"type": "single", "feature": "salt", "in": ["kashida-ar"],
+                      "out": "kashida-ar.long"})
+        kashida = True
     # ---- a few mark anchors / kerning for realism (all default writers run)
     if stratum == "empty_categories_user_gdef":
         S.add_mark_anchors(rng, glyphs, desc, classes=("top",), p_base=0.95)
@@ -567,7 +586,9 @@ def run(case):
                 elif ds == {"RTL"}:
                     want, why = "RTL", "script"
                 elif not ds:
-                    want, why = None, "neutral"
+                    # "cleared exactly for glyphs of left-to-right scripts": a glyph no
+                    # script-specific code point reaches keeps the flag
+                    want, why = "RTL", "neutral"
                 else:
                     want, why = None, "mixed"
             expected.append({"suffix": sfx, "entry": _r(sides["entry"]), "exit": _r(sides["exit"]),
